@@ -370,6 +370,14 @@ def curated_runs():
                              srow(3, 'c1.fcs', {'FL1-H': 'MEF', 'FL3-H': 'au'}), srow(4, 'c1.fcs', {'FL1-H': 'furlongs'}, fault='units'),
                              srow(5, 'c1.fcs', {'FL1-H': 'rfi'}, gate_fraction=1.5, fault='gate_fraction')],
                     np_seed=4, plot=True, hist=False, default_out=False))
+    # eleven reported fluorescence channels in one sample row, plots on (more histograms than default colours)
+    fl11 = ['FL%d-A' % i for i in range(1, 12)]
+    i11 = dict(id='I1', fsc='FSC-A', ssc='SSC-A', fl=fl11, time='Time')
+    out.append(dict(arm='run', instruments=[i11], beads=[],
+                    files={'c1.fcs': dict(kind='cells', instrument='I1', seed=21, n=450, datatype='I')},
+                    samples=[dict(id='S1', instrument='I1', beads=None, file='c1.fcs', gate_fraction=0.5,
+                                  units={c: ('RFI' if i % 2 else 'Channel') for i, c in enumerate(fl11)}, strain='wt', fault=None)],
+                    np_seed=5, plot=True, hist=False, default_out=True))
     return out
 
 
